@@ -154,9 +154,11 @@ CORE_CLASSES = {
     "C01": ["reuse", "mix", "ready", "disable"],
     "C03": ["pings", "pings", "disable"],
     "C04": ["chans", "chans", "mix"],
+    "C10": ["streams", "streams", "mix"],
+    "C12": ["timers", "timers", "mix"],
     "C02": ["ready", "fds", "mix", "timers"],
     "C05": ["timers", "mix"],
-    "C06": ["reuse", "mix", "faults"],
+    "C06": ["reuse", "timers", "mix", "faults"],
     "C07": ["disable", "mix", "timers"],
     "C08": ["mix", "idle", "reuse", "post"],
     "C09": ["post", "mix", "faults"],
@@ -278,7 +280,7 @@ def engine_core(prop, tier, seed, work):
 
 # ------------------------------------------------------------------------------- LoopCore model engines
 MODEL_CFGS = {
-    "C03": ["reuse"], "C04": [],
+    "C03": ["reuse"], "C04": [], "C10": [], "C12": ["timers"],
     "C01": ["reuse", "edge"], "C02": ["edge", "post"], "C05": ["timers"], "C06": ["reuse", "post"],
     "C07": ["edge", "timers"], "C08": ["reuse", "idle"], "C09": ["post"], "C13": ["idle"],
     "C14": ["life"], "C15": ["faults", "life"], "C16": ["edge", "reuse"],
